@@ -86,6 +86,18 @@ func main() {
 				noteLevels(c.Tree, levelPairs)
 			}
 			if diff != "" {
+				// a disagreement must reproduce when the case is run again, alone, each printing
+				// in its own process: the property is deterministic, the environment is not
+				again := *c
+				again.Out, again.Dropped = nil, ""
+				totalProcs += int64(len(halves(c)))
+				evalSingle(e, 0, &again)
+				d2, _, _ := verdict(&again)
+				if again.Dropped != "" || again.Out == nil || d2 == "" {
+					st.dropped++
+					e.Inconclusive(c.Key + ": disagreement did not reproduce (" + diff + ")")
+					continue
+				}
 				st.failing++
 				report(c, diff)
 			}
@@ -231,6 +243,8 @@ func main() {
 	e.Extra("features_switched_off", append([]string{}, quar.list()...))
 	e.Extra("random_trees", map[string]any{"cases": stRand.cases, "disagreeing": stRand.failing, "dropped": stRand.dropped,
 		"regenerated": regenerated, "depth_histogram": intKeyed(depthHist), "printings_per_tree": 3, "valuations_per_tree": 3})
+	e.Extra("pairs_exhaustive", true)
+	e.Extra("triples_exhaustive", pct == 100 && skippedByPair == 0 && len(skippedByQuarantine) == 0)
 	e.Extra("valuation_comparisons", stPairs.compared+stTriples.compared+stRand.compared)
 	e.Extra("processes_started", totalProcs)
 	e.Extra("level_pairs_exercised_bare", len(levelPairs))
@@ -243,7 +257,7 @@ func main() {
 		DistinctNontrivial: nontrivial.N(),
 		Rule:               "distinct (minimal printing, style) whose minimal printing leaves at least one operator-operator edge unparenthesised that the full printing parenthesises, and whose fully parenthesised printing produced a value (not a Throwable / death) under at least one valuation",
 		Samples:            samples,
-		Exhaustive:         !e.Quick(),
+		Exhaustive:         false, // pairs (and, in the thorough tier, triples) are exhaustive; random trees are not
 	})
 }
 
